@@ -84,6 +84,9 @@ func specialScenarios() []specialScenario {
 	name23, name30 := "cheese/gouda/aged/slice", "a/rather/long/name/of/30/chars"
 	add("names-lengths-around-the-columns", true, bookPlus(absRecipe{name30, []absIng{{"an element of 22 chars", 2}, {"cal", 1}}}),
 		logPlus([]absIng{{name23, 1}, {name30, 2}}, []absIng{{name23 + "/and/then/some/more", 1}, {"exactly/twenty/chars", 1}, {"exactly/27/characters/long!", 1}}))
+	// long names that shorten to the same text, or whose shortened forms sort otherwise than the names themselves
+	add("names-that-collide-or-swap-when-shortened", true, bookPlus(absRecipe{"salad/mixed", []absIng{{"vegetables/lettuce/romaine/100g", 1}, {"vegetables/tomato/cherry/100g", 2}, {"cal", 1}}}),
+		logPlus([]absIng{{"soup/chicken/large/bowl/300g", 1}, {"soup/chicken/small/bowl/300g", 2}, {"salad/mixed", 1}}, []absIng{{"soup/chicken/small/bowl/300g", 1}, {"soup/chicken/large/bowl/300g", -1}, {"salad/mixed", 2}}))
 	long := strings.Repeat("long/name ", 450) + "end"
 	add("names-beyond-4096-bytes", true, bookPlus(absRecipe{"z" + long, []absIng{{"e" + long, 2}}}), logPlus([]absIng{{long, 1}}, []absIng{{"z" + long, 2}, {long, 1}}))
 	add("names-that-look-like-something-else", true, bookPlus(absRecipe{"today", []absIng{{"cal", 1}}}, absRecipe{"cal", []absIng{{"fat", 3}}}),
